@@ -160,7 +160,8 @@ func RunOpAPIClones(r OpReq) (first, second Outcome) {
 // runOpOn executes the request through the operator API on the given tensor objects.
 func runOpOn(r OpReq, ins []tensor.Tensor) Outcome {
 	phase := "lookup"
-	return Capture(&phase, func() ([]tensor.Tensor, error) {
+	slot := -1 // a slot of the list handed to Apply that holds another object afterwards
+	o := Capture(&phase, func() ([]tensor.Tensor, error) {
 		op, err := opset13.GetOperator(r.Op)
 		if err != nil {
 			return nil, err
@@ -183,8 +184,20 @@ func runOpOn(r OpReq, ins []tensor.Tensor) Outcome {
 			return nil, err
 		}
 		phase = "apply"
-		return op.Apply(vin)
+		before := append([]tensor.Tensor{}, vin...)
+		out, err := op.Apply(vin)
+		for i := range before {
+			if i < len(vin) && vin[i] != before[i] && slot < 0 {
+				slot = i
+			}
+		}
+		return out, err
 	})
+	if slot >= 0 && o.Kind == Value && o.ReadErr == "" {
+		// the list belongs to the caller (who may use it for its next call): Apply reads it
+		o.ReadErr = fmt.Sprintf("Apply replaced entry %d of the input list it was handed", slot)
+	}
+	return o
 }
 
 // RunOpReused initialises ONE operator instance with the request's attributes,
